@@ -29,14 +29,14 @@ void mp::internal::WriteMessage(fmt::BufferedFile &file, const char *message) {
       ++line_end;
     // Replace an empty line with a line containing a single space
     // because an empty line indicates the end of message.
-    if (line_end == line_start
-        && *line_end)           // but not when end of string
+    // A lone CR (blank line of a CRLF text) is blank for the reader, too.
+    bool blank = line_end == line_start
+        || (line_end - line_start == 1 && *line_start == '\r');
+    if (blank && *line_end)     // but not when end of string
       std::fputc(' ', file.get());
-    else {
-      std::fwrite(line_start, 1, line_end - line_start, file.get());
-      if (!*line_end)
-        std::fputc('\n', file.get()); // make empty line in the end
-    }
+    std::fwrite(line_start, 1, line_end - line_start, file.get());
+    if (!*line_end)
+      std::fputc('\n', file.get()); // make empty line in the end
     std::fputc('\n', file.get());
     if (!*line_end)
       break;
